@@ -72,7 +72,7 @@ def extract(path, anchor):
 
 
 def digs(s):
-    return {1: "d1", 2: "d2", 3: "d3"}[len(s)] + "(" + ", ".join(f"{ord(c)}u8" for c in s) + ")"
+    return {1: "d1", 2: "d2", 3: "d3", 4: "d4"}[len(s)] + "(" + ", ".join(f"{ord(c)}u8" for c in s) + ")"
 
 
 def tr_guard(g):
